@@ -13,7 +13,7 @@ RULE = ("Streams of exact numbers (ints, rationals, floats lifted exactly) of le
         "through the shipped WelfordTracker.update / ExponentialSmoothingTracker.update as ixv.exact.Q values, so "
         "mean/var/get() are exact rationals and are compared with == against closed forms (arithmetic mean, population "
         "variance, sum alpha(1-alpha)^(n-i) v_i) after EVERY update (in some cases the tracker is deep- or shallow-copied mid-stream: the copy carries on, the original must stay); plus N, std, linearity T(a*u+b*w)=a*T(u)+b*T(w), "
-        "min<=mean<=max, smoothed value in the convex hull of {0} and the inputs; a float/NumPy-scalar twin is compared "
+        "min<=mean<=max, smoothed value in the convex hull of {0} and the inputs; a float/NumPy-scalar twin (float64/32, signed and UNSIGNED integer scalars, and values handed over in one reused 0-d array buffer) is compared "
         "within a rounding tolerance. Non-trivial: >=3 distinct values, non-monotone, mixed sign (and alpha not in {0,1} "
         "for smoothing); distinct by SHA-256 of the canonical case JSON.")
 ASSUMPTIONS = ["fractions.Fraction arithmetic is exact", "evidence by search, not the inductive proof the property text mentions"]
@@ -154,7 +154,12 @@ def run_linear(case):
     return Result(True, nontrivial=n >= 3 and a != 0 and b != 0 and len(set(u)) >= 2 and len(set(w)) >= 2)
 
 
-_NP = {'f64': np.float64, 'f32': np.float32, 'i64': np.int64, 'i32': np.int32, 'pyfloat': float, 'pyint': int}
+_NP = {'f64': np.float64, 'f32': np.float32, 'i64': np.int64, 'i32': np.int32, 'pyfloat': float, 'pyint': int,
+       # unsigned NumPy scalars (0 - np.uint8(3) wraps around, np.uint8(3) - 0 does not) ...
+       'u8': lambda v: np.uint8(abs(v) % 256), 'u16': lambda v: np.uint16(abs(v) % 65536), 'u64': lambda v: np.uint64(abs(v)),
+       # ... and 'buf': every value arrives in ONE reused 0-d float64 array (the out= buffer of a reduction): the value counts as it
+       # was when it was supplied
+       'buf': float}
 
 
 def run_numpy(case):
@@ -162,7 +167,7 @@ def run_numpy(case):
     from ixai.utils.tracker import WelfordTracker, ExponentialSmoothingTracker
     conv = _NP[case['dtype']]
     raw = case['values']
-    if case['dtype'] in ('i64', 'i32', 'pyint'):
+    if case['dtype'] in ('i64', 'i32', 'pyint', 'u8', 'u16', 'u64'):
         xs = [conv(int(v)) for v in raw]
     else:
         xs = [conv(v) for v in raw]
@@ -171,7 +176,11 @@ def run_numpy(case):
     w, e = WelfordTracker(), ExponentialSmoothingTracker(alpha=alpha)
     eps = 2.0 ** -23 if case['dtype'] == 'f32' else 2.0 ** -52
     seen = []
+    buf = np.zeros((), dtype=np.float64)
     for x, q in zip(xs, exact):
+        if case['dtype'] == 'buf':
+            buf[...] = x
+            x = buf
         w.update(x), e.update(x)
         seen.append(q)
         n = len(seen)
@@ -226,7 +235,7 @@ def run(ctx):
     ctx.rule, ctx.assumptions = RULE, ASSUMPTIONS
     subs = strategies(ctx)
     budget = {'welford': ctx.n(1500, 64000), 'es': ctx.n(1500, 64000), 'linear': ctx.n(600, 32000),
-              'numpy': ctx.n(600, 32000)}
+              'numpy': ctx.n(900, 32000)}
     for name, (strat, fn) in subs.items():
         if not ctx.search(name, strat, fn, budget[name]):
             return
